@@ -4,3 +4,5 @@ open GrVerif.Props.C03
 #print axioms stream_walk
 #print axioms action_then_walk
 #print axioms every_opcode_keeps_stream
+#print axioms shape_stream_wf
+#print axioms passes_keep_stream
